@@ -432,10 +432,14 @@ def run(ctx, chk):
             return self._c.floor("R10.9/" + rule, *a, **kw)
     c05.inplace_rule(prog, _Renamed9(chk))
 
+    # ---- R10.11 the low-order rejection only the portable X25519 backend performs never narrows its accumulated
+    # differences with loss (C05's R5.10, E12): return codes do not depend on the backend
+    c05.small_order_rule(prog, chk, "R10.11")
+
     # ---- R10.10 the assembly fast paths of sodium_add / sodium_sub / sodium_increment propagate one carry chain like the byte loop
     # of the builds without assembly (C14's R14.8 engine, carry and once parts)
     if not chk.relaxed:
-        c14.asm_limb_rule(prog, chk, "R10.10", parts=("carry", "once"))
+        c14.asm_limb_rule(prog, chk, "R10.10", parts=("carry", "once", "guard"))
 
     # ---- R10.6 the portable AES block helpers use every bit of their integer operands (E11) ----------------------------------
     softaes_rule(ctx, prog, chk)
